@@ -87,6 +87,14 @@ def corpus_cases():
                 'ops': [_L] + _job('1/a') + _job('1/c') + _job('2/a') + _job('2/c', msgs=('started',)) + [
                     _L, _stop_at(2), {'op': 'msg', 'task': '2/c', 'msg': 'succeeded', 'sn': 1, 'sev': 'INFO'},
                     _L, _L, _stop_at(4), _L, _L]})
+    # P1 runahead: 3/a is still runahead-limited when cycles 1-2 of a and c are done and 1/b, 2/b are pooled; the stop
+    # point is then lowered to 2: 2/b (within the stop point) waits on 3/a (beyond it, never released).  The stall
+    # check must ignore that dependence (log_unsatisfied_prereqs); the unchanged scheduler then neither stalls nor
+    # shuts down (finding hang-waiting-beyond-stop-point)
+    out.append({'id': 'fut-fixed-wait-beyond-stop', 'flow': _flow(_sec('P1', 'a[+P1] & c => b', 'a', 'c'), fcp=4, runahead=1),
+                'seed': 0, 'opts': {}, 'policy': {'restarts': 0}, 'kind': 'futcmd',
+                'ops': [_L] + _job('1/a') + _job('1/c') + _job('2/a') + _job('2/c') + [_L, _stop_at(2), _L] +
+                _job('1/b') + [_L, _L, _L, _L]})
     return out
 
 
